@@ -105,10 +105,14 @@ package generic
 //@   ensures RI(d.Channel.Q)
 //@   modifies wire, rd, quiet, alloc(), all(util.Queue.queue), all(util.Queue.depth), chans()
 //@   ensures result.1 != nil ==> result.0 == ""
-//@ func (*Driver).SendCommandsFromFile
+//@ func util.LoadFileLines
 //@   noverify
+//@   modifies alloc()
+//@ func (*Driver).SendCommandsFromFile [C13]
 //@   requires RI(d.Channel.Q) && d.Channel.PromptSearchDepth >= 0
 //@   modifies sent, alloc(), optlog
+//@   at call! SendCommands#1 assert #the-lines-of-the-file-are-sent-with-the-operation-options arg0 === inputs && arg1 === opts
+//@   ensures #nil-on-error result.1 != nil ==> result.0 == nil
 
 // ---- C18: which callback runs, with what, and what happens next ------------------------------------------------------------
 // trig(cb, b): the trigger predicate of check (its verified postcondition); cacheOK: the lower-casing caches are coherent
